@@ -5,6 +5,7 @@ import (
 	"context"
 	"encoding/json"
 	"fmt"
+	"math/big"
 	"reflect"
 	"strings"
 	"time"
@@ -203,6 +204,45 @@ func emitDIDDocRoundTrip(out *Out, r *Rng) {
 	if r.Bool() {
 		delete(base, "assertionMethod")
 	}
+	// global-state proofs of every kind: existence, non-existence ending in an empty leaf, non-existence with an auxiliary node
+	proofKind := "sample"
+	if vms, ok := base["verificationMethod"].([]any); ok && len(vms) > 0 && r.Chance(85) {
+		tree := mustTree()
+		n := r.Intn(12)
+		var keys []*big.Int
+		for i := 0; i < n; i++ {
+			k := big.NewInt(int64(r.Intn(4096)))
+			if tree.Add(context.Background(), k, big.NewInt(int64(1+r.Intn(1000)))) == nil {
+				keys = append(keys, k)
+			}
+		}
+		q := big.NewInt(int64(r.Intn(4096)))
+		if len(keys) > 0 && r.Chance(35) {
+			q = keys[r.Intn(len(keys))]
+		}
+		mp, _, err := tree.GenerateProof(context.Background(), q, nil)
+		if err == nil {
+			pb, _ := json.Marshal(mp)
+			var pm map[string]any
+			_ = json.Unmarshal(pb, &pm)
+			pm["type"] = "Iden3SparseMerkleTreeProof"
+			vm := vms[0].(map[string]any)
+			vm["global"].(map[string]any)["proof"] = pm
+			vm["global"].(map[string]any)["root"] = tree.Root().Hex()
+			switch {
+			case mp.Existence:
+				proofKind = "existence"
+			case mp.NodeAux != nil:
+				proofKind = "non-existence-aux"
+			default:
+				proofKind = "non-existence-empty"
+			}
+			if r.Chance(30) {
+				// a second method without state data
+				base["verificationMethod"] = append(vms, map[string]any{"id": "v2", "type": "JsonWebKey2020", "controller": "c"})
+			}
+		}
+	}
 	b0, _ := json.Marshal(base)
 	var why []string
 	var d1, d2 verifiable.DIDDocument
@@ -232,7 +272,7 @@ func emitDIDDocRoundTrip(out *Out, r *Rng) {
 			why = append(why, "authentication entry changes form under the round trip")
 		}
 	}
-	out.Emit(Case{Op: "none", In: J{"doc": json.RawMessage(b0)}, Impl: okJ("stable"), Prop: propOf(why), Tags: []string{"diddoc", fmt.Sprintf("auth:%d", len(auth))}, NT: true})
+	out.Emit(Case{Op: "none", In: J{"doc": json.RawMessage(b0)}, Impl: okJ("stable"), Prop: propOf(why), Tags: []string{"diddoc", fmt.Sprintf("auth:%d", len(auth)), "gistproof:" + proofKind}, NT: true})
 }
 
 func genC14(out *Out, r *Rng, tier string, n int, shard int) {
